@@ -1,0 +1,18 @@
+//go:build !verif
+
+// Package verifhook provides instrumentation points for the external
+// verification harness. Without the `verif` build tag all functions are
+// empty and inlined away.
+package verifhook
+
+// Enabled reports whether hooks are compiled in.
+const Enabled = false
+
+// Handler receives (point, owner, a, b, c).
+type Handler func(point string, owner any, a, b, c int64)
+
+// Set is a no-op without the verif build tag.
+func Set(Handler) {}
+
+// At is a no-op without the verif build tag.
+func At(string, any, int64, int64, int64) {}
